@@ -39,7 +39,7 @@ fn meta() -> Meta {
     Meta {
         id: "C11",
         level: "fault_enumeration",
-        rule: "for every history (the fixed word W W W5 W W R W5 Reopen W5 W5 W plus all words of length <= 3 over {W20, W5, R} (quick) / <= 5 over {W20, W5, R, Reopen} (thorough), each after 0 or 1 clean earlier runs) and every configuration (naming x cleanup x symlink x append), every file-system point hit by the history is a crash state; each crash state is restarted with append on and off; distinct_nontrivial = distinct (configuration, history, crash site, occurrence) where the crash falls inside a rotation, cleanup or compression (not directly before a plain write); with a symlink configured the link must resolve to the file holding the restarted run's last record; of all files known the newest k+m must survive the restarted run; the files are judged after the first record of the restarted run as well as at its end; when the interposition shim is loaded (LD_PRELOAD, harness/shim/fsshim.c) every libc call that changes the directory tree (rename, link, unlink, symlink, open with O_CREAT / O_TRUNC, mkdir, rmdir, truncate) below the log directory is a crash point as well, whether or not a guarded hook sits in front of it (states equal to the preceding one are not recorded twice); the real-kill validation aborts child processes at those points, too",
+        rule: "for every history (the fixed word W W W5 W W R W5 Reopen W5 W5 W plus all words of length <= 3 over {W20, W5, R} (quick) / <= 5 over {W20, W5, R, Reopen} (thorough), each after 0 or 1 clean earlier runs) and every configuration (naming x cleanup (for the direct namings also with a plain-file limit of 0) x symlink x append), every file-system point hit by the history is a crash state; each crash state is restarted with append on and off; distinct_nontrivial = distinct (configuration, history, crash site, occurrence) where the crash falls inside a rotation, cleanup or compression (not directly before a plain write); with a symlink configured the link must resolve to the file holding the restarted run's last record; of all files known the newest k+m must survive the restarted run; the files are judged after the first record of the restarted run as well as at its end; when the interposition shim is loaded (LD_PRELOAD, harness/shim/fsshim.c) every libc call that changes the directory tree (rename, link, unlink, symlink, open with O_CREAT / O_TRUNC, mkdir, rmdir, truncate) below the log directory is a crash point as well, whether or not a guarded hook sits in front of it (states equal to the preceding one are not recorded twice); the real-kill validation aborts child processes at those points, too",
         assumptions: vec![
             "process kill, not power loss: the directory as the kernel sees it survives; a single write(2) is atomic with respect to the kill".into(),
             "a kill inside io::copy is represented by the state before gz finish (truncated gzip stream, original still present)".into(),
@@ -61,7 +61,12 @@ fn grid() -> Vec<Case> {
     for naming in NG {
         // tight limits (every cleanup removes something) and generous ones (what an interrupted
         // cleanup leaves behind must survive the restarted run)
-        for clean in [CleanK::Never, CleanK::Log(1), CleanK::Gz(1), CleanK::LogGz(1, 1), CleanK::Gz(6), CleanK::LogGz(1, 6), CleanK::Gz(2)] {
+        let mut cleans = vec![CleanK::Never, CleanK::Log(1), CleanK::Gz(1), CleanK::LogGz(1, 1), CleanK::Gz(6), CleanK::LogGz(1, 6), CleanK::Gz(2)];
+        // a plain-file limit of 0: under a direct naming the file being written to is exempt
+        if naming.direct() {
+            cleans.extend([CleanK::Log(0), CleanK::LogGz(0, 2)]);
+        }
+        for clean in cleans {
             for symlink in [false, true] {
                 for append in [false, true] {
                     for prior_restart in [false, true] {
